@@ -38,6 +38,17 @@ def _norm_message(error):
     return norm_message(error)
 
 
+def _decode_probe(shown):
+    """A probe as the case holds it: a number, or '10**5000' / '-10**5000' for numbers too long to be written out."""
+    if isinstance(shown, str) and "**" in shown:
+        sign = -1 if shown.startswith("-") else 1
+        base, _, exponent = shown.lstrip("-").partition("**")
+        if base != "10" or not exponent.isdigit() or int(exponent) > 20000:
+            raise ValueError("malformed probe %r" % (shown,))
+        return sign * 10 ** int(exponent)
+    return shown
+
+
 def check_case(sub, case):
     kind = case["kind"]
     description = case["description"]
@@ -76,7 +87,11 @@ def check_case(sub, case):
             description, rng.lower_limit, rng.upper_limit, lower, upper))
     _check_sibling(sub, case, cls, kind, description)
     _check_default_ignored(sub, case, cls, kind, description, items)
-    for probe in list(probes) + list(reversed(probes)):
+    if kind == "int":
+        # values of more digits than Python converts to text (4300): inside or outside like any other value
+        probes = list(probes) + ["10**5000", "-10**5000"]
+    for shown in list(probes) + list(reversed(probes)):
+        probe = _decode_probe(shown)
         expected = member(items, probe)
         sub.evaluations += 1
         try:
@@ -90,12 +105,12 @@ def check_case(sub, case):
                 sub.fail("C01|exc-type|" + type(error).__name__, case, "raised %r" % error)
         except Exception as error:
             sub.fail("C01|exc-type|" + type(error).__name__, case,
-                     "validate(%r) on %r raised %s: %s" % (probe, description, type(error).__name__, error))
+                     "validate(%s) on %r raised %s: %s" % (shown, description, type(error).__name__, error))
             continue
         if accepted != expected:
             sig = "C01|member|%s|%s" % (kind, "accepted-outside" if accepted else "rejected-inside")
-            sub.fail(sig, dict(case, probes=[str(probe) if kind == "dec" else probe]),
-                     "%r: value %r %s but %s" % (description, probe,
+            sub.fail(sig, dict(case, probes=[str(probe) if kind == "dec" else shown]),
+                     "%r: value %s %s but %s" % (description, shown,
                                                  "accepted" if accepted else "rejected",
                                                  "lies outside every item" if accepted else "lies inside an item"))
 
